@@ -292,7 +292,7 @@ def check_mutation(ctx: Ctx, line) -> None:
 @st.composite
 def _sections(draw, ctx):
     n = draw(st.integers(1, ctx.pick(12, 40)))
-    tick = draw(st.integers(0, 50))
+    tick = draw(st.one_of(st.integers(0, 50), st.integers(0, 50), st.integers(0, 50), st.sampled_from(G.BIG_OFFSETS_32)))
     lines = []   # [text, kind, payload]
     for g in range(n):
         if g:
